@@ -4,15 +4,15 @@ CONSTANTS
   PathOrder <- StdPathOrder
   IgnoreVocab <- StdIgnoreVocab
   Bug = "none"
-  MaxSteps = 10
+  MaxSteps = 8
   MaxEditRun = 3
-  Acts = {"Write", "Chmod", "Delete", "Mkfifo", "FileToDir", "DirToFile", "RmTree", "Symlink", "CheckOut", "SetSparse", "Snapshot"}
-  EditPaths <- AllEditPaths
+  Acts = {"Write", "Chmod", "Delete", "Mkfifo", "FileToDir", "DirToFile", "RmTree", "Snapshot", "CheckOut"}
+  EditPaths <- InsideIgnoredPaths
   Contents = {1, 2}
   SymTargets = {"out", "f"}
   RootIgnore = {1, 2, 3, 4, 7}
   DirIgnore = {3, 5, 6}
-  TreeIds = {1, 2, 3, 4, 5, 6, 7, 8, 9, 10, 11, 12, 13}
+  TreeIds = {9, 11, 12}
   SparseIds = {1, 2, 3, 4, 5, 6}
   XP = "respect"
   Strict = FALSE
